@@ -1,6 +1,7 @@
 """Rule-layer core over mirfacts JSON: CFG, dominators, def-use, expression
 reconstruction, linear normaliser, error-block classification, call graph."""
 import json
+import os
 import re
 from collections import defaultdict
 
@@ -195,6 +196,14 @@ class Fn:
         self.blocks = d["blocks"]
         self.locals = d["locals"]
         self.nargs = d["nargs"]
+        # VERIF_RENAME_SUFFIX=<s>: self-test switch - pretend every local and parameter of the analysed program had been renamed
+        # (debug name + s).  A rule that passes on the real tree and fails under this switch depends on a name (tools/name_probe.sh).
+        sfx = os.environ.get("VERIF_RENAME_SUFFIX")
+        if sfx and not d.get("_renamed"):
+            d["_renamed"] = True
+            for l in self.locals:
+                if l.get("name") and l["name"] != "self":
+                    l["name"] = l["name"] + sfx
         self.n = len(self.blocks)
         self._succ = None
         self._pred = None
@@ -226,6 +235,54 @@ class Fn:
         return [i for i, l in enumerate(self.locals) if l.get("name") == name]
 
     # -- name-independent rendering (so that renaming a local, or introducing one for a sub-expression, changes nothing)
+    def unparam(self, x):
+        """replace the debug names of this function's parameters (except `self`) by $n in a rendered string, in every string of
+        a list/tuple/set, or in the keys of a linear form: what a rule compares must not depend on what a parameter is called"""
+        import re as _re
+        if isinstance(x, str):
+            for i in range(1, self.nargs + 1):
+                nm = self.locals[i].get("name")
+                if nm and nm != "self":
+                    x = _re.sub(r"(?<![\w$.:])" + _re.escape(nm) + r"\b(?!::|\()", f"${i}", x)
+            return x
+        if isinstance(x, dict):
+            return {self.unparam(k): (self.unparam(v) if isinstance(v, (str, list, tuple, set, dict)) else v) for k, v in x.items()}
+        if isinstance(x, (list, tuple, set)):
+            return type(x)(self.unparam(v) if isinstance(v, (str, list, tuple, set, dict)) else v for v in x)
+        return x
+
+    def unname(self, x, keep=None):
+        """keep: {local index: placeholder} overrides the default placeholder of those locals.
+        Like unparam, and every other named local is replaced by %<its type> (all locals sharing a debug name must share the
+        type, otherwise %?).  Coarser than denamed() - two locals of one type are not told apart - but applicable to any
+        rendered string; use it where the compared text mentions a local only to say WHAT KIND of thing is tested."""
+        import re as _re
+        if isinstance(x, str):
+            names = {}
+            kept = {}
+            for i in range(1, len(self.locals)):
+                nm = self.locals[i].get("name")
+                if nm and nm != "self":
+                    if keep and i in keep:
+                        kept.setdefault(nm, set()).add(keep[i])
+                    elif i > self.nargs:
+                        names.setdefault(nm, set()).add(self.locals[i]["ty"])
+            for nm in sorted(kept, key=len, reverse=True):
+                rep = next(iter(kept[nm])) if len(kept[nm]) == 1 else "%?"
+                x = _re.sub(r"(?<![\w$.%:])" + _re.escape(nm) + r"\b(?!::|\()", lambda m_: rep, x)
+                names.pop(nm, None)
+            x = self.unparam(x)
+            for nm in sorted(names, key=len, reverse=True):
+                tys = names[nm]
+                rep = "%" + (next(iter(tys)) if len(tys) == 1 else "?")
+                x = _re.sub(r"(?<![\w$.%:])" + _re.escape(nm) + r"\b(?!::|\()", lambda m_: rep, x)
+            return x
+        if isinstance(x, dict):
+            return {self.unname(k, keep): (self.unname(v, keep) if isinstance(v, (str, list, tuple, set, dict)) else v) for k, v in x.items()}
+        if isinstance(x, (list, tuple, set)):
+            return type(x)(self.unname(v, keep) if isinstance(v, (str, list, tuple, set, dict)) else v for v in x)
+        return x
+
     def role_of(self, l):
         """stable placeholder of a local: $n for parameter n; otherwise %<type>#k, k = rank among the locals of that type
         that are assigned more than once (declaration order)"""
@@ -256,6 +313,34 @@ class Fn:
                 return ("var", keep[e[2]], e[2])
             return ("var", self.role_of(e[2]), e[2])
         return tuple(self.denamed(x, keep) if isinstance(x, tuple) else x for x in e)
+
+    def byte_tests(self):
+        """{(rel, constant)}: every test of the function on a BYTE VALUE read from the input — element 0 of a one-byte buffer,
+        or a u8 parameter — whether written as a comparison (`b == 0xff`, `b <= 0x7f`) or as a `match` on the byte.
+        Found by role, not by the local's name."""
+        import re
+        out = set()
+
+        def is_byte_atom(k):
+            if re.fullmatch(r"\[0; 1\]\[0\]", k) or re.fullmatch(r"\*?\$\d+\[0\]", k) and False:
+                return True
+            m = re.fullmatch(r"\$(\d+)", k)
+            return bool(m) and self.local_ty(int(m.group(1))) == "u8"
+        for b in self.reachable_blocks():
+            t = self.term(b)
+            if t["k"] != "switch":
+                continue
+            e = self.denamed(self.switch_cond(b))
+            if t.get("ty") == "bool":
+                n = compare_norm(e)
+                if n and len(n[0]) == 1 and is_byte_atom(list(n[0])[0]):
+                    out.add((n[2], abs(n[1])))
+            elif t.get("ty") == "u8":
+                k = show(strip(e))
+                if is_byte_atom(k):
+                    for v, _ in t["targets"]:
+                        out.add(("==0", v))
+        return out
 
     def bit_direction(self):
         """for a path walker: [('set'|'clear', 'left'|'right')] — which child of the Pair is taken on each edge of the
@@ -608,7 +693,14 @@ class Fn:
                 else:
                     base = ("deref", base)
             elif "f" in p:
-                base = ("field", base, p["f"])
+                tb = base
+                while tb[0] == "named":
+                    tb = tb[3]
+                # a field of a tuple built a moment ago (`match (a, b)`) is just that element
+                if tb[0] == "agg" and tb[1] == "tuple" and str(p["f"]).isdigit() and int(p["f"]) < len(tb[2]) and p.get("i") == int(p["f"]):
+                    base = tb[2][int(p["f"])]
+                else:
+                    base = ("field", base, p["f"])
             elif "dc" in p:
                 base = ("downcast", base, p["dc"])
             elif "ix" in p:
@@ -1117,3 +1209,40 @@ def show_norm(n):
     if c:
         parts.append(("+" if c > 0 else "-") + str(abs(c)))
     return " ".join(parts) + " " + rel
+
+
+def vec_pushes(f, elem_ty):
+    """pushes onto a Vec whose element type ends with elem_ty (the vector is found by TYPE, whatever it is called), in block
+    order: [(block, value)].  A value that is field k of a matched node's Pair payload is rendered 'child<k>' - what it IS,
+    not what the binding is called; other values are rendered deep."""
+    import re as _re
+    out = []
+    for b, t in f.calls():
+        if not (t.get("callee") or "").endswith("Vec::<T, A>::push") or len(t["args"]) < 2:
+            continue
+        pl = op_place(t["args"][0])
+        if not pl:
+            continue
+        ty = f.local_ty(pl["l"])
+        if pl["p"]:
+            ty = show(f.expr_op(t["args"][0], deep=False)) + " : " + ty
+        vt = f.local_ty(op_place(t["args"][1])["l"]) if op_place(t["args"][1]) and not op_place(t["args"][1])["p"] else None
+        if not (("Vec<" + elem_ty + ">") in ty.replace("std::vec::", "") or ty.rstrip(">").endswith(elem_ty) or (vt or "").endswith(elem_ty)):
+            continue
+        v = show(f.expr_op(t["args"][1]))
+        m = _re.match(r"^\(.* as Pair\)\.([01])$", v)
+        m2 = _re.match(r"^(\w+)\(\(.* as Pair\)\.([01])\)$", v)
+        out.append((b, "child" + m.group(1) if m else (f"{m2.group(1)}(child{m2.group(2)})" if m2 else v)))
+    return sorted(out)
+
+
+def vec_pops(f, elem_ty):
+    """blocks of pops from a Vec whose element type ends with elem_ty"""
+    out = []
+    for b, t in f.calls():
+        if not (t.get("callee") or "").endswith("Vec::<T, A>::pop"):
+            continue
+        dst = f.local_ty(t["dst"]["l"])
+        if dst.rstrip(">").endswith(elem_ty):
+            out.append(b)
+    return sorted(out)
